@@ -275,7 +275,7 @@ func (p *Policy) sanitize(r io.Reader, w io.Writer) error {
 			if !ok {
 				aa, matched := p.matchRegex(token.Data)
 				if !matched {
-					if _, ok := p.setOfElementsToSkipContent[token.Data]; ok {
+					if _, ok := p.setOfElementsToSkipContent[token.Data]; ok && !voidElement(token.Data) {
 						skipElementContent = true
 						skippingElementsCount++
 					}
@@ -348,7 +348,7 @@ func (p *Policy) sanitize(r io.Reader, w io.Writer) error {
 						break
 					}
 				}
-				if _, ok := p.setOfElementsToSkipContent[token.Data]; ok && !match {
+				if _, ok := p.setOfElementsToSkipContent[token.Data]; ok && !match && !voidElement(token.Data) {
 					skippingElementsCount--
 					if skippingElementsCount == 0 {
 						skipElementContent = false
@@ -1017,6 +1017,19 @@ func relHasToken(rel string, linkType string) bool {
 		}
 	}
 	return false
+}
+
+// voidElement returns true for the elements that have neither content nor an
+// end tag
+func voidElement(elementName string) bool {
+	switch elementName {
+	case "area", "base", "basefont", "bgsound", "br", "col", "embed", "frame",
+		"hr", "img", "input", "keygen", "link", "meta", "param", "source",
+		"track", "wbr":
+		return true
+	default:
+		return false
+	}
 }
 
 // stringInSlice returns true if needle exists in haystack
